@@ -19,7 +19,8 @@ def run(tier):
     for pa in range(8):
         for op in range(3):
             for nk in range(3):
-                jobs.append(dict(base, harness="VerifC19Clone", params={"pa": pa, "la": 1, "op": op, "nk": nk, "ln": 1}))
+                for ln in ([0, 1] if tier == "quick" else [0, 1, 2]):
+                    jobs.append(dict(base, harness="VerifC19Clone", params={"pa": pa, "la": 1, "op": op, "nk": nk, "ln": ln}))
     vj = []
     vbase = dict(unwind=120, timeout_s=600, summarise=SUM, max_witnesses=1, witness_every=200, panic_is_violation=True)
     for nk in (0, 1, 2):
@@ -34,6 +35,6 @@ def run(tier):
             vj.append(dict(vbase, harness="VerifC19TextRoundTrip", params={"nk": 1, "k0": k0, "len0": 1, "len1": 1, "word0": w, "word1": 0, "word2": 0}))
             vj.append(dict(vbase, harness="VerifC19TextRoundTrip", params={"nk": 2, "k0": k0, "len0": 1, "len1": 1, "word0": 0, "word1": w, "word2": 0}))
     groups = [Group("attr", jobs), Group("versiontest", vj)]
-    return run_property("C19", tier, groups, required_covers=["strict chain", "equal pair", "plain assignment shares the attribute map", "set written", "a value that spells an attribute key"],
+    return run_property("C19", tier, groups, required_covers=["strict chain", "equal pair", "plain assignment shares the attribute map", "set written", "a key written a second time", "a value that spells an attribute key"],
                         assumptions=["sets are built through SetAttr on keys 0, 5, 10 with symbolic values and a symbolic flag mask"],
                         bounds={"keys": 3, "value_len": lens})
